@@ -250,7 +250,13 @@ fn run_in(dir: &Path, checked: &Registry, per_container: usize, seed: u64, only:
     rep.javac_s = t.elapsed().as_secs_f64();
     if !out.status.success() {
         let text = String::from_utf8_lossy(&out.stderr);
-        return Err(fail("generated-java-does-not-compile", format!("javac rejects the generated code: {}", text.lines().take(6).collect::<Vec<_>>().join(" | ")), null));
+        // a compile error names a source file; anything else (the JVM could not start, no memory) is the
+        // sandbox's business and no verdict on the generated code
+        if text.lines().any(|l| l.contains(".java:") && l.contains("error:")) {
+            return Err(fail("generated-java-does-not-compile", format!("javac rejects the generated code: {}", text.lines().filter(|l| l.contains("error:")).take(4).collect::<Vec<_>>().join(" | ")), null));
+        }
+        rep.reason = Some(format!("javac could not run: {}", text.lines().take(2).collect::<Vec<_>>().join(" | ")));
+        return Ok(());
     }
     // ---- the values
     let reg = Rc::new(checked.clone());
@@ -297,15 +303,22 @@ fn run_in(dir: &Path, checked: &Registry, per_container: usize, seed: u64, only:
     }
     std::fs::write(&input, text).map_err(|e| fail("error", e.to_string(), null.clone()))?;
     let t = std::time::Instant::now();
-    let run = Proc::new("java").arg("-Xss256m").arg("-Dfile.encoding=UTF-8").arg("-cp").arg(&classes).arg("Main").arg(PACKAGE).arg(&input).arg(&output).output().map_err(|e| fail("error", e.to_string(), null.clone()))?;
+    let run = Proc::new("java").arg("-Xss64m").arg("-Dfile.encoding=UTF-8").arg("-cp").arg(&classes).arg("Main").arg(PACKAGE).arg(&input).arg(&output).output().map_err(|e| fail("error", e.to_string(), null.clone()))?;
     rep.java_s = t.elapsed().as_secs_f64();
+    // (the driver catches whatever the generated code throws, line by line: if the JVM itself fails, that is
+    // the sandbox's business and no verdict)
     if !run.status.success() {
-        return Err(fail("error", format!("the Java driver failed: {}", String::from_utf8_lossy(&run.stderr).lines().take(4).collect::<Vec<_>>().join(" | ")), null));
+        rep.reason = Some(format!("the JVM could not run the driver: {}", String::from_utf8_lossy(&run.stderr).lines().take(2).collect::<Vec<_>>().join(" | ")));
+        return Ok(());
     }
-    let answers = std::fs::read_to_string(&output).map_err(|e| fail("error", e.to_string(), null.clone()))?;
+    let Ok(answers) = std::fs::read_to_string(&output) else {
+        rep.reason = Some("the driver's output could not be read".into());
+        return Ok(());
+    };
     let answers: Vec<&str> = answers.lines().collect();
     if answers.len() != cases.len() {
-        return Err(fail("error", format!("the Java driver answered {} of {} lines", answers.len(), cases.len()), null));
+        rep.reason = Some(format!("the Java driver answered {} of {} lines", answers.len(), cases.len()));
+        return Ok(());
     }
     // ---- judge
     for ((c, bytes), ans) in cases.iter().zip(answers) {
